@@ -1282,7 +1282,8 @@ func c06UfsFlushWaiting(ctx *core.Ctx, dotu bool) core.Result {
 		return res
 	}
 	defer h.done()
-	kinds := []string{"walk-clone", "walk-name", "walk-inplace", "read", "stat", "open", "wstat", "clunk", "remove", "create", "the-open-itself"}
+	kinds := []string{"walk-clone", "walk-name", "walk-inplace", "read", "stat", "open", "wstat", "clunk", "remove", "create", "the-open-itself",
+		"create;then-clunk-of-its-directory-fid", "create;then-remove-of-its-directory-fid", "create;then-hangup"}
 	for round, kind := range kinds {
 		ctx.Beat()
 		h.repair()
@@ -1342,7 +1343,7 @@ func c06UfsFlushWaiting(ctx *core.Ctx, dotu bool) core.Result {
 			m = &wire.Msg{Type: wire.Tclunk, Fid: 40}
 		case "remove":
 			m = &wire.Msg{Type: wire.Tremove, Fid: 40}
-		case "create":
+		case "create", "create;then-clunk-of-its-directory-fid", "create;then-remove-of-its-directory-fid", "create;then-hangup":
 			// a hard link to the busy fid, made in the root directory through a clone of it
 			if !h.okRpc(c, &wire.Msg{Type: wire.Twalk, Tag: 12, Fid: 0, Newfid: 42}) {
 				res.Inconclusive = "c06 flush: clone failed"
@@ -1359,6 +1360,19 @@ func c06UfsFlushWaiting(ctx *core.Ctx, dotu bool) core.Result {
 			_ = c.Send(m)
 			h.s.Ctl.WaitPassed("process.marked", 0, 20, 1, 2*time.Second)
 			time.Sleep(2 * time.Millisecond)
+		}
+		switch kind {
+		case "create;then-clunk-of-its-directory-fid":
+			// (instead of the flush) the fid the waiting create was sent on is given up meanwhile
+			_ = c.Send(&wire.Msg{Type: wire.Tclunk, Tag: 22, Fid: 42})
+			c.WaitTag(22, 2*time.Second)
+		case "create;then-remove-of-its-directory-fid":
+			_ = os.Mkdir(filepath.Join(h.root, fmt.Sprintf("gone-%d", round)), 0o755)
+			_ = c.Send(&wire.Msg{Type: wire.Tclunk, Tag: 22, Fid: 42})
+			c.WaitTag(22, 2*time.Second)
+		case "create;then-hangup":
+			c.Hangup()
+			time.Sleep(3 * time.Millisecond)
 		}
 		_ = c.Send(&wire.Msg{Type: wire.Tflush, Tag: 21, Oldtag: flushed})
 		// the flush is taken up (answered at once by a server that cancels, when the request is done otherwise)
